@@ -29,12 +29,16 @@ class Pair:
 
     def __enter__(self):
         self.sim.__enter__()
+        from sim.deviant import Deviance
+        self.dev = Deviance(self.sim)
+        self.dev.__enter__()
         ca, cb = conf_pair(self.ipa, self.ipb, **self.conf)
         self.A = self.sim.add_endpoint('A', [self.ipa], ca)
         self.B = self.sim.add_endpoint('B', [self.ipb], cb)
         return self
 
     def __exit__(self, *a):
+        self.dev.__exit__(*a)
         self.sim.__exit__(*a)
 
     def ep(self, name):
@@ -58,7 +62,15 @@ class Pair:
             index = ep.configuration.ike_configurations[(ep.addrs[0], self.other(action[1]).addrs[0])].protect[0].index
             proto = int(ep.configuration.ike_configurations[(ep.addrs[0], self.other(action[1]).addrs[0])]
                         .protect[0].my_ts.ip_proto)
-            sent = ep.acquire(me, peer, me, peer, 0, action[2], proto, index)
+            # the packet that triggers an ACQUIRE matches the policy (the kernel looked the policy up by that packet):
+            # its addresses lie within the selectors of the protect entry
+            pr = ep.configuration.ike_configurations[(ep.addrs[0], self.other(action[1]).addrs[0])].protect[0]
+            from ipaddress import ip_address as _ip
+
+            def within(addr, ts):
+                a = _ip(addr)
+                return addr if ts.start_addr <= a <= ts.end_addr else str(ts.start_addr)
+            sent = ep.acquire(me, peer, within(me, pr.my_ts), within(peer, pr.peer_ts), 0, action[2], proto, index)
         elif kind == 'expire':
             ep = self.ep(action[1])
             children = [c for sa in ep.controller.ike_sas for c in sa.child_sas]
@@ -145,6 +157,39 @@ class Pair:
                 for k in range(action[2]):
                     sent += ep.datagram(dst, src, bytes([0xF0, k + 1] * 4) + data[8:])
                 sent = []       # the answers to the flood are not part of the legitimate flow
+        elif kind == 'reinject':
+            # ['reinject', k, side, source address or None, mode]: a rewritten copy of the k-th datagram ever sent is
+            # delivered to endpoint `side`: 'asis', 'swap_spis' (SPI fields exchanged: the receiver finds its own SPI in
+            # the field its own role would use), 'other_peer_spi' (the field that does not select the IKE_SA is
+            # changed), 'flip_i' (initiator flag inverted)
+            if self.history:
+                src, dst, data = self.history[action[1] % len(self.history)]
+                ep = self.ep(action[2])
+                mode = action[4]
+                if mode == 'swap_spis':
+                    data = data[8:16] + data[0:8] + data[16:]
+                elif mode == 'other_peer_spi':
+                    mine = {bytes(x.my_spi) for x in ep.controller.ike_sas}
+                    if data[0:8] in mine:
+                        data = data[0:8] + bytes(b ^ 0x5a for b in data[8:16]) + data[16:]
+                    else:
+                        data = bytes(b ^ 0x5a for b in data[0:8]) + data[8:]
+                elif mode == 'flip_i':
+                    data = data[:19] + bytes([data[19] ^ 0x08]) + data[20:]
+                sent = ep.datagram(str(ep.addrs[0]), action[3] or (src if ep is sim.owner_of(dst) else dst), data)
+                sent = []
+        elif kind == 'expire_spi':
+            sent = self.ep(action[1]).expire(bytes.fromhex(action[2]), bool(action[3]))
+        elif kind == 'mutate':
+            # ['mutate', side, mutator, exchange ('init'|'auth'|'child'|'info'|None), is_request (True|False|None)]:
+            # the next matching message GENERATED by that endpoint has its payload list rewritten (sim/deviant.py)
+            self.dev.add(action[1], action[2], action[3] if len(action) > 3 else None,
+                         action[4] if len(action) > 4 else None)
+        elif kind == 'acquire_index':
+            # an ACQUIRE whose policy index belongs to no protect entry (a stale or foreign policy)
+            ep = self.ep(action[1])
+            me, peer = (self.ipa, self.ipb) if action[1] == 'A' else (self.ipb, self.ipa)
+            sent = ep.acquire(me, peer, me, peer, 0, action[2], 6, action[3])
         elif kind == 'kfail_newsa':
             ep = self.ep(action[1])
             ep.kernel.fail_newsa.add(ep.kernel.n_newsa + action[2])
